@@ -21,12 +21,12 @@ const (
 
 func init() {
 	register(&PropertyDef{
-		ID:    "C10",
-		Title: "A crash at any write leaves the secret store consistent and usable",
+		ID:          "C10",
+		Title:       "A crash at any write leaves the secret store consistent and usable",
 		Explanation: "Decides write-order and persistence constraints from the SSA of pkg/secretstore, with datastore/keystore effects labelled by the namespace constant that reaches the key argument: (D1) on the open path the key is stored under the message CID before the precomputed key is deleted, and the next precomputed key is written before the chain key is advanced, in every function where two such writes are distinct sites; (D2) every success return of SealEnvelope is dominated by an accepted Put of the chain key (the only tolerated early return is the monotone counter guard), and the precomputed key is written before the chain key; (D3) registration writes/commits the precomputed window before the chain key; (D4) get-or-generate named keys: the generated key is returned only after keystore.Put of that same value succeeded, and the lookup precedes the generation; (D5) errors of the mutating operations on these namespaces are tested and reject. Each constraint covers every crash point between the two writes. Not decided: atomicity of datastore batches, partial non-batched window writes, exhaustive crash-point x workload exploration.",
 		Trusted:     []string{"go/packages+go/ssa (x/tools v0.29.0)", "go-datastore Put/Delete/Commit are durable when they return nil", "ipfs keystore Put/Get semantics"},
 		Assumptions: []string{"one secret store instance per datastore; effects identified by the namespace constants of pkg/secretstore"},
-		Floors:      map[string]int{"D1": 2, "D2": 2, "D3": 1, "D4": 2, "D5": 6},
+		Floors:      map[string]int{"D1": 2, "D2": 2, "D3": 1, "D4": 2, "D5": 6, "D6": 6},
 		Run:         runC10,
 	})
 }
@@ -285,6 +285,11 @@ func runC10(c *Ctx) {
 	if n == 0 {
 		c.fail("D3", "register-path+window<chainkey", reg.Pos(), "no function on the registration path writes both the precomputed window and the chain key")
 	}
+
+	// ---- D6 a registration interrupted after the window commit and retried after restart
+	// recomputes the same state: the window function derives every key of the window even when
+	// the keys are already cached, so the chain key it returns is fully ratcheted
+	checkWindowFunction(c, "D6", regScope, reg)
 
 	// ---- D4 named keys: get-or-generate / get-or-compute
 	ksGet := func(e Effect) bool { return e.Op == "KsGet" }
